@@ -383,27 +383,55 @@ def run(workers, only):
 
 
 def report():
+    """Merges results.jsonl (mapped checks) with results2.jsonl (survivors re-run against further
+    checks by hand-picked mapping) and applies mutation/triage_rules.py to what is left."""
     rs = [json.loads(l) for l in open(os.path.join(OUTDIR, "results.jsonl"))]
-    triage = {}
-    tp = os.path.join(HERE, "mutation", "triage.json")
-    if os.path.exists(tp):
-        triage = json.load(open(tp))
-    os.makedirs(os.path.join(HERE, "mutation"), exist_ok=True)
+    r2p = os.path.join(OUTDIR, "results2.jsonl")
+    second = {}
+    if os.path.exists(r2p):
+        for l in open(r2p):
+            x = json.loads(l)
+            second[x["id"]] = x
+    sys.path.insert(0, os.path.join(HERE, "mutation"))
+    from triage_rules import RULES
+
+    def triage(r):
+        for key, verdict in RULES:
+            if key in r["id"]:
+                return verdict
+        return "NOT TRIAGED"
+
     from collections import Counter
 
+    for r in rs:
+        x = second.get(r["id"])
+        if x is not None:
+            r["tried"] = r["tried"] + x["tried"]
+            if x["status"] == "caught":
+                r["status"], r["by"], r["keys"] = "caught", x["by"] + " (second pass)", x["keys"]
+            elif r["status"] == "inconclusive" or x["status"] == "inconclusive":
+                r["status"] = "inconclusive"
     c = Counter(r["status"] for r in rs)
+    os.makedirs(os.path.join(HERE, "mutation"), exist_ok=True)
     with open(os.path.join(HERE, "mutation", "AUTOMUT.md"), "w") as f:
         f.write("# Automatic one-site mutants (tools/automut.py)\n\n")
-        f.write(f"{len(rs)} mutants generated over {len(FILES)} files; rejected by the repository's own tests: {c['tests']}; of the {len(rs) - c['tests']} that pass the tests: caught by a check {c['caught']}, only inconclusive {c['inconclusive']}, survived {c['survived']}.\n\n")
-        f.write("## Survivors and their triage\n\n| mutant | where | change | triage |\n|---|---|---|---|\n")
+        f.write(f"{len(rs)} mutants over {len(FILES)} files (operators: comparison / boolean / arithmetic swap, small integer +-1, True<->False, dropped `not`, statement -> pass, break<->continue, return None, if -> True/False; sampled per file, seed 0).\n\n")
+        f.write(f"* rejected by the repository's own 103 tests: **{c['tests']}**\n* pass the tests: **{len(rs) - c['tests']}**, of which\n  * reported by a check (VIOLATION): **{c['caught']}**\n  * only inconclusive (the rig cannot connect / a watchdog fires - exit 2, never 0): **{c['inconclusive']}**\n  * no check fired: **{c['survived']}** - triaged below\n\n")
+        f.write("First pass = the checks mapped to the mutated file in tools/automut.py; second pass = survivors and inconclusives re-run against further checks where the first mapping was too narrow (e.g. the structure classes also feed the facades).\n\n")
+        f.write("## Not reported: triage\n\n| mutant | where | change | checks tried (exit) | verdict |\n|---|---|---|---|---|\n")
         for r in rs:
             if r["status"] in ("survived", "inconclusive"):
-                f.write(f"| {r['id']} | {r['func']} | {r['desc'].replace('|', '/')} | {r['status']}: {triage.get(r['id'], 'not triaged')} |\n")
-        f.write("\n## Caught (first check that fired)\n\n| mutant | change | check | fingerprints |\n|---|---|---|---|\n")
+                tried = " ".join(f"{a}:{b}" for a, b in r["tried"])
+                v = triage(r) if r["status"] == "survived" else "inconclusive everywhere: the mutant stops the client from connecting (or hangs it); every rig-based check exits 2"
+                f.write(f"| {r['id']} | {r['func']} | {r['desc'].replace('|', '/')} | {tried} | {v} |\n")
+        f.write("\n## Reported (first check that fired)\n\n| mutant | change | check | fingerprints |\n|---|---|---|---|\n")
         for r in rs:
             if r["status"] == "caught":
                 f.write(f"| {r['id']} | {r['desc'].replace('|', '/')} | {r['by']} | {', '.join(r['keys'][:3])} |\n")
-    print(c)
+    print(c, "untriaged:", sum(1 for r in rs if r["status"] == "survived" and triage(r) == "NOT TRIAGED"))
+    for r in rs:
+        if r["status"] == "survived" and triage(r) == "NOT TRIAGED":
+            print("  ", r["id"], r["desc"][:80])
 
 
 if __name__ == "__main__":
